@@ -65,6 +65,8 @@ type Case struct {
 	Policy map[string]int `json:"seam_policy_vector,omitempty"`
 	Runs   int            `json:"consecutive_runs,omitempty"`
 	Child  bool           `json:"fresh_process_per_run,omitempty"`
+	// history variant: the first run fails with a generator error at this type
+	FailFirstRunAt string `json:"first_run_fails_at_type,omitempty"`
 }
 
 type result struct {
@@ -238,6 +240,55 @@ func checkRunsAcrossOrders(c *core.Ctx, orders [][]string, runs int) {
 	c.Nontrivial(fmt.Sprint("orders", orders))
 }
 
+// a failed run in between must leave no trace: [run that fails in one package, 3 clean runs] ends in
+// the same generated files and gengo.sum as [3 clean runs] on the same sources
+func checkAfterFailure(c *core.Ctx, failAt string) {
+	c.Eval(1)
+	entry := []string{".", "./a", "./b", "./c"}
+	cs := Case{Entry: entry, All: true, Runs: 4, FailFirstRunAt: failAt}
+	final := func(fail bool) (map[string]string, bool) {
+		dir := pipe.TempDir("c04f")
+		defer os.RemoveAll(dir)
+		if err := pipe.WriteTree(dir, module()); err != nil {
+			c.Internal("%v", err)
+			return nil, false
+		}
+		if fail {
+			sp := spec(dir, entry, true)
+			sp.Gens[0].ByType = map[string]pipe.Action{failAt: {Ret: "error"}}
+			o := pipe.Exec(sp)
+			c.Trans(1)
+			if o.Err == "" || o.LoadErr != "" || o.Panic != "" {
+				c.Internal("the injected generator error at %s did not fail the run (err=%q load=%q panic=%q)", failAt, o.Err, o.LoadErr, o.Panic)
+				return nil, false
+			}
+		}
+		for k := 0; k < 3; k++ {
+			o := pipe.Exec(spec(dir, entry, true))
+			c.Trans(1)
+			if !o.OK() {
+				c.Fail("", cs, "clean run %d (after a failed one: %v) failed: load=%q err=%q panic=%q", k+1, fail, o.LoadErr, o.Err, o.Panic)
+				return nil, false
+			}
+		}
+		t, _ := pipe.ReadTree(dir)
+		return outputs(t), true
+	}
+	ref, ok := final(false)
+	if !ok {
+		return
+	}
+	got, ok := final(true)
+	if !ok {
+		return
+	}
+	if d := diffFiles(ref, got); d != "" {
+		c.Fail("", cs, "a run that failed at %s followed by 3 clean runs ends in other outputs than 3 clean runs alone:\n%s", failAt, d)
+	}
+	c.State("after-failure")
+	c.Nontrivial("after-failure " + failAt)
+}
+
 func run(c *core.Ctx) {
 	sites := seamctl.Sites("")
 	c.Bound("seam_available", seamctl.Available())
@@ -331,6 +382,11 @@ func run(c *core.Ctx) {
 	if c.Next() {
 		checkRunsAcrossOrders(c, [][]string{{".", "./a", "./b", "./c"}, {"./a", "./b", "./c", "."}, {"./c", ".", "./b", "./a"}, {modPath, "./a", "./c"}}, 3)
 	}
+	for _, at := range []string{modPath + ".Root", modPath + "/a.T", modPath + "/a.T07", modPath + "/b.B", modPath + "/c.C"} {
+		if c.Next() {
+			checkAfterFailure(c, at)
+		}
+	}
 	c.Sample(Case{Entry: []string{modPath + "/b", "./a", "./a"}, All: true})
 	c.Sample(Case{Entry: entryAll, All: true, Policy: map[string]int{"pkg/gengo/context.go:363": 1}})
 }
@@ -339,6 +395,10 @@ func replay(c *core.Ctx, raw json.RawMessage) {
 	var cs Case
 	if err := json.Unmarshal(raw, &cs); err != nil {
 		c.Internal("bad case: %v", err)
+		return
+	}
+	if cs.FailFirstRunAt != "" {
+		checkAfterFailure(c, cs.FailFirstRunAt)
 		return
 	}
 	if cs.Runs > 0 && len(cs.Entry) > 0 && cs.All && !cs.Child && cs.Def == 0 && len(cs.Policy) == 0 && (cs.Entry[0] != "./a" || len(cs.Entry) != 3) {
@@ -377,7 +437,7 @@ func replay(c *core.Ctx, raw json.RawMessage) {
 func init() {
 	core.Register(&core.Prop{
 		ID: "C04", Level: "model_checking", Run: run, Replay: replay,
-		Rule: "one order-sensitive module (package-level T + type parameter T + function-local T, 15 documented types, a type switched off that keeps a sub-option, aliases, 3 packages importing each other, 3 stale outputs, 8 imports with clashing last segments) with 6 generators (stateful scripted with Defer, second scripted, map-literal/multi-argument template generator, runtimedoc, deepcopy, defaulter). (i) every map-iteration policy vector over all range-over-map sites of the library with <=2 (thorough <=3) deviating sites x 3 non-default policies, plus each policy applied globally; (ii) every entrypoint sequence of length <=3 over 5 spellings (relative dirs, an import path, the module-root package '.', duplicates) x All on/off, compared inside its group of equal package sets; (iii) 3 consecutive runs in-process (each global policy) and with a fresh process per run, and 3-run histories under 4 entrypoint orders (root package first / last / in the middle / by import path) whose outputs incl. gengo.sum are compared after every run. Oracle: all generated files and gengo.sum byte-identical to the reference execution, identical callback sequence, later runs change no generated file. Every execution is non-trivial; states = distinct (group, policy) classes",
+		Rule: "one order-sensitive module (package-level T + type parameter T + function-local T, 15 documented types, a type switched off that keeps a sub-option, aliases, 3 packages importing each other, 3 stale outputs, 8 imports with clashing last segments) with 6 generators (stateful scripted with Defer, second scripted, map-literal/multi-argument template generator, runtimedoc, deepcopy, defaulter). (i) every map-iteration policy vector over all range-over-map sites of the library with <=2 (thorough <=3) deviating sites x 3 non-default policies, plus each policy applied globally; (ii) every entrypoint sequence of length <=3 over 5 spellings (relative dirs, an import path, the module-root package '.', duplicates) x All on/off, compared inside its group of equal package sets; (iii) 3 consecutive runs in-process (each global policy) and with a fresh process per run, and 3-run histories under 4 entrypoint orders (root package first / last / in the middle / by import path) whose outputs incl. gengo.sum are compared after every run; histories that start with a run failing in one of 5 places followed by 3 clean runs vs 3 clean runs alone. Oracle: all generated files and gengo.sum byte-identical to the reference execution, identical callback sequence, later runs change no generated file. Every execution is non-trivial; states = distinct (group, policy) classes",
 		Assumptions: []string{
 			"map orders are bounded to ascending/descending/rotations per site with a bounded number of deviating sites, not all n! orders",
 			"sync.Map.Range in pkgExecute (order in which finished files are written) is not owned: files are independent of one another",
